@@ -75,3 +75,21 @@ def ask(bb, system, p, queries, weakly=False, **kw):
 
 def results(df):
     return [bool(x) for x in df['result']]
+
+
+import contextlib  # noqa: E402
+import logging  # noqa: E402
+
+
+@contextlib.contextmanager
+def debug_logging(on=True):
+    """the library guards extra work with logger.isEnabledFor(DEBUG); with the root level at DEBUG those
+    branches run (records are still dropped by the console handler, whose level stays at ERROR)"""
+    root = logging.getLogger()
+    old = root.level
+    if on:
+        root.setLevel(logging.DEBUG)
+    try:
+        yield
+    finally:
+        root.setLevel(old)
